@@ -368,7 +368,7 @@ func initiatorBody(depth int) nd.Body {
 
 var serverLists = [][]sasl.Mechanism{{sasl.Plain}, {sasl.Plain, sasl.ScramSha1}}
 var clientSays = []string{
-	"auth-plain-valid", "auth-plain-wrong-password", "auth-plain-malformed", "auth-plain-empty", "auth-plain-eq", "auth-plain-bad-base64", "auth-plain-four-parts",
+	"auth-plain-valid", "auth-plain-wrong-password", "auth-plain-malformed", "auth-plain-empty", "auth-plain-eq", "auth-plain-bad-base64", "auth-plain-valid-then-corrupt-base64", "auth-plain-valid-overpadded-base64", "auth-plain-four-parts",
 	"auth-unoffered-scram256", "auth-unknown", "auth-no-mechanism", "auth-scram-first",
 	"response-valid-plain", "response-empty", "abort", "failure", "unknown-sasl-element", "foreign-element", "text", "eof",
 }
@@ -431,6 +431,11 @@ func receiverBody(depth int) nd.Body {
 				return auth("PLAIN", "="), nil
 			case "auth-plain-bad-base64":
 				return auth("PLAIN", "!!!"), nil
+			case "auth-plain-valid-then-corrupt-base64":
+				// undecodable as a whole, although its beginning decodes to valid credentials
+				return auth("PLAIN", b64("\x00me\x00secret")+"!"), nil
+			case "auth-plain-valid-overpadded-base64":
+				return auth("PLAIN", strings.TrimRight(b64("\x00me\x00secret"), "=")+"===="), nil
 			case "auth-plain-four-parts":
 				return auth("PLAIN", b64("\x00me\x00secret\x00x")), nil
 			case "auth-unoffered-scram256":
@@ -520,7 +525,7 @@ func init() {
 	drv.Register(&drv.Prop{
 		ID:    "C03",
 		Level: "model_checking",
-		Rule: "initiator: 6 client mechanism lists x 10 advertised lists x every peer script of up to D steps over 17 answers (challenge/success carrying the correct next SCRAM message computed by a reference RFC 5802 server from what the client actually sent, empty, '=', garbage, invalid base64; failure; unknown SASL element; foreign element; text; EOF), the client then being allowed to restart the stream; receiver: 2 mechanism lists x 4 permission-callback behaviours (checks the password, accepts all, rejects all, none configured) x every client script of up to D steps over 19 messages (auth with valid/wrong/malformed/empty/'='/bad-base64/four-part payloads, unoffered/unknown/missing mechanism, SCRAM first message, response before/after auth, abort, failure, junk). " +
+		Rule: "initiator: 6 client mechanism lists x 10 advertised lists x every peer script of up to D steps over 17 answers (challenge/success carrying the correct next SCRAM message computed by a reference RFC 5802 server from what the client actually sent, empty, '=', garbage, invalid base64; failure; unknown SASL element; foreign element; text; EOF), the client then being allowed to restart the stream; receiver: 2 mechanism lists x 4 permission-callback behaviours (checks the password, accepts all, rejects all, none configured) x every client script of up to D steps over 21 messages (auth with valid/wrong/malformed/empty/'='/bad-base64 (also with a validly decoding prefix)/four-part payloads, unoffered/unknown/missing mechanism, SCRAM first message, response before/after auth, abort, failure, junk). " +
 			"Oracle (only-if): Authn set => mechanism offered by both sides, mechanism completed per the reference, success signalled by the receiver (initiator) / permission callback asked and accepted (receiver). Non-trivial = every distinct script.",
 		Assumptions: []string{"only-if direction: a success the client rejects is not a violation", "server-side SCRAM cannot complete in this code base (no salted credential source is wired) and -PLUS needs a TLS connection state: receiver configurations are PLAIN (+ SCRAM-SHA-1 offered but unable to finish); a 'not implemented' panic inside mellium.im/sasl is recorded as an outcome, not explored", "PBKDF2 runs at the library's iteration count 4096",
 			"mellium.im/sasl v0.3.2 hangs (infinite loop in the SCRAM client's parameter parser) on an empty or attribute-less payload received while waiting for the server-first message; those executions are skipped and counted under skipped_out_of_domain"},
